@@ -76,6 +76,9 @@ class P(StreamProperty):
         # heavy columns: many equations reach degree one in a single call
         for ci, c in enumerate(gens.dense_column_cases(rng, 'hc', 60 if tier == 'quick' else 600)):
             cases.append(wrap(c, ci % 8))
+        # stars: a symbol of column weight >= 5 arrives last while each of its equations has exactly one other unknown
+        for ci, (cfg, order) in enumerate(gens.star_configs(rng, 8 if tier == 'quick' else 200)):
+            cases.append(wrap(gens.decoder_case('st%d' % ci, cfg, order, api='stream', finish=True, cb=['none', 'buf', 'null', 'mix'][ci % 4]), ci % 8))
         # advertised limits
         lim = [gens.Cfg('rs8', 254, 1), gens.Cfg('rs8', 1, 254), gens.Cfg('rs8', 128, 127), gens.Cfg('rs2m8', 200, 55), gens.Cfg('rs2m8', 1, 254),
                gens.Cfg('rs2m4', 14, 1), gens.Cfg('rs2m4', 1, 14), gens.Cfg('rs2m4', 8, 7),
@@ -106,6 +109,9 @@ class P(StreamProperty):
                     sub = rng.sample(range(nn), rng.randint(max(0, k - 1), nn))
                 cases.append(wrap(gens.decoder_case('t%d' % j, cfg, gens.random_order(rng, sub, 0.2), api=rng.choice(['stream', 'table']),
                                                     cb=rng.choice(['none', 'buf', 'null', 'mix']), finish=True), j % 8))
+        # histories that continue after of_finish_decoding (second finish, late symbols, finish again)
+        for ci, c in enumerate(gens.after_finish_cases(rng, 'af', 120 if tier == 'quick' else 2500)):
+            cases.append(wrap(c, ci % 8))
         return cases
 
 _p = P()
